@@ -2,7 +2,7 @@
 (* C12: every input-type graph on N types x @oneOf flags.                    *)
 EXTENDS Inputs, Json, TLC
 
-CONSTANT N
+CONSTANTS N, DoubleMembers   \* DoubleMembers: also the kinds with two members per ordered pair of types
 
 VARIABLES g, oneOf, pos
 vars == <<g, oneOf, pos>>
@@ -18,7 +18,7 @@ Init == /\ oneOf \in [Nodes(N) -> BOOLEAN]
 
 \* members of an @oneOf type are nullable
 SetPair == /\ ~Done
-           /\ \E k \in Kinds :
+           /\ \E k \in (IF DoubleMembers THEN Kinds ELSE Kinds \ {"[T]+T", "T+[T]"}) :
                  /\ (oneOf[Pairs[pos][1]] => k \in NullableKinds)
                  /\ g' = [g EXCEPT ![Pairs[pos]] = k]
            /\ pos' = pos + 1
